@@ -16,7 +16,7 @@ from .common import chunks
 
 ID = "C09"
 RULE = (
-    "H: 14 queries mixing cacheable sub-expressions (root- and context-rooted queries, constants, functions of them, nested "
+    "H: 15 queries mixing cacheable sub-expressions (root- and context-rooted queries, constants, functions of them, nested "
     "filters inside root paths) with per-node ones (current node, current key) x 2 documents that differ exactly in the cached "
     "part x 2 filter contexts x {caching on, off}: every history of depth<=4 with caching on (3 with caching off; all depth-5 histories of one query chosen by VERIF_SEED; thorough 6, and 7 for 3 queries) over the letters "
     "{open iterator on doc i, advance iterator j (<=3 live), findall(doc i), findall(doc i) under the other filter context, swap the two documents' contents in place, recompile, findall in the other caching mode}; every "
@@ -37,8 +37,14 @@ D2 = {"k": 2, "key": "q", "l": [2], "a": [{"x": 1, "n": 2, "t": [7]}, {"x": 2, "
 # 'm': subjects and patterns for match()/search(); D1 holds a valid pattern, D2 the same invalid pattern twice in a row
 D1["m"] = [{"s": "x", "re": "x"}, {"s": "xy", "re": "x."}]
 D2["m"] = [{"s": "x", "re": "("}, {"s": "x", "re": "("}, {"s": "x", "re": "x"}]
+# 'sh' / 'sh2' hold equal arrays; in the live documents of a history they are one and the same Python object (a value
+# may sit in two places of a document built from Python objects), in the reference they are separate copies
+D1["sh"] = [1, 2, [1]]
+D1["sh2"] = [1, 2, [1]]
+D2["sh"] = [1, 2, [2]]
+D2["sh2"] = [1, 2, [2]]
 DOCS = [D1, D2]
-CTX = [{"lim": 1}, {"lim": 2}]
+CTX = [{"lim": 1, "xs": [1, 2]}, {"lim": 2, "xs": [2, 3]}]
 QUERIES = [
     "$.a[?@.x == $.k]", "$.a[?@.x > _.lim]", "$.a[?count($.a.*) == @.n]", "$.o[?# == $.key]", "$.a[?@.x in $.l]",
     "$.a[?$.l[?@ == $.k]]", "$.a[?1 == 1 && @.x != $.k]", "$.a[?length($.l) == @.n]", "$..[?@.x == $.k || @ == $.k]",
@@ -47,6 +53,8 @@ QUERIES = [
     "$.a[?@.t[?$.k == 1]]", "$.a[?count(@.t[?$.k == 1 || 1 == 1]) == @.x]",
     # regular-expression functions whose pattern comes from the document (the function objects are shared by the environment)
     "$.m[?match(@.s, @.re)]", "$.m[?search(@.s, @.re) || match(@.re, $.key)]",
+    # a context query whose nested filter refers to the document ($ must be the document of *this* evaluation)
+    "$.a[?count(_.xs[?@ == $.k]) == @.x]",
 ]
 PROBE = {"k": 3, "key": "r", "l": [3, 3, 3], "a": [{"x": 3, "n": 3}, {"x": 1, "n": 1}], "o": {"r": 5}}
 
@@ -233,6 +241,8 @@ def _history(qi, caching, hist, acc, record=True, sub="H"):
     env = _env(caching)
     other = _env(not caching)
     docs = [deep_copy(d) for d in DOCS]
+    for d in docs:
+        d["sh2"] = d["sh"]  # aliased containers: the result is a function of the document's value, not of object identity
     snaps = [deep_copy(d) for d in DOCS]
     ctx = deep_copy(CTX[ci])
     ctx_snap = deep_copy(CTX[ci])
